@@ -47,7 +47,12 @@ def tx_variants(cmd):
         return []
     pos, want = [], {SIGNER_FIELD[cmd["rpc"]]: ADDR}
     sched_positional = False
-    for f in cmd["positional"]:
+    # the user types the arguments in the order the USAGE LINE names them; what arrives must be
+    # the message with each value in the field of that name
+    shown = [t[1:-1].replace("-", "_") for t in cmd["use"].split(" ") if t.startswith("[") and t.endswith("]")]
+    if sorted(shown) != sorted(cmd["positional"]):
+        shown = cmd["positional"]
+    for f in shown:
         if f == "vesting_schedules":
             sched_positional = True
             pos.append(SCHED1)
